@@ -185,6 +185,8 @@ int runScenario(const QJsonObject &scn)
     vfs::clearFaults();
     vfs::setRoot(root);
     vfs::setCallback(sysEvent);
+    setenv("TZ", "UTC", 1);       // an earlier scenario may have changed the zone
+    tzset();
     vfs::setNowMs((long long)scn["now"].toDouble());
 
     if (!resume) {
@@ -211,6 +213,19 @@ int runScenario(const QJsonObject &scn)
             vfs::setNowMs((long long)op["ms"].toDouble());
             QJsonObject o;
             o["e"] = "Now";
+            o["ms"] = op["ms"];
+            emitLine(o);
+            continue;
+        }
+        if (kind == "zone") {
+            // the process finds itself in another time zone: local dates shift by whole days, time goes on
+            const int z = op["z"].toInt();
+            setenv("TZ", z == 0 ? "UTC" : (z < 0 ? "VRF+24" : "VRF-24"), 1);
+            tzset();
+            vfs::setNowMs((long long)op["ms"].toDouble());
+            QJsonObject o;
+            o["e"] = "Zone";
+            o["z"] = z;
             o["ms"] = op["ms"];
             emitLine(o);
             continue;
@@ -296,6 +311,8 @@ int runTwin(const QJsonObject &scn)
     vfs::clearFaults();
     vfs::setRoot(root);
     vfs::setCallback(sysEvent);
+    setenv("TZ", "UTC", 1);       // an earlier scenario may have changed the zone
+    tzset();
     vfs::setNowMs((long long)scn["now"].toDouble());
     vfs::setQuiet(true);
     QDir(QString::fromStdString(root)).removeRecursively();
